@@ -40,6 +40,12 @@ type Case struct {
 	Flags  []string   `json:"flags"` // flags other than -f and patterns
 	Env    []string   `json:"env,omitempty"`
 	Scheds []Sched    `json:"scheds"`
+	// Pre, if set, is a run that names a subset of the packages and happens
+	// BEFORE the reference run of ./... (every other subset run comes after
+	// it and gets its package graph derived from the memoised full one): the
+	// package loader, the configuration lookup and everything else that is
+	// per invocation then see the subset first.
+	Pre *Sched `json:"pre,omitempty"`
 }
 
 func h64(parts ...string) uint64 {
@@ -191,7 +197,7 @@ func executeReal(c Case) batch.Result {
 	}
 	var digests []uint64
 	n := 0
-	procList := []int{1, 4, 16, 2}
+	procList := []int{1, 16, 4}
 	if batch.Tier == "thorough" {
 		procList = []int{1, 2, 4, 16, 3, 8, 16, 1}
 	}
@@ -213,6 +219,41 @@ func executeReal(c Case) batch.Result {
 			break
 		}
 		res.Counters["sim_vs_real_agreements"]++
+	}
+	// pattern subsets and orders with the real binary and the real package
+	// loader (the simulated runs derive subset graphs from the memoised
+	// ./... graph, so anything the loader does per invocation is only
+	// exercised here)
+	maxSub := 4
+	if batch.Tier == "thorough" {
+		maxSub = 8
+	}
+	for i := range c.Scheds {
+		s := &c.Scheds[i]
+		if s.Patterns == nil || maxSub == 0 || res.Violation != nil {
+			continue
+		}
+		maxSub--
+		cd, _ := os.MkdirTemp(batch.Scratch, "verif-realcache")
+		sinv := simlint.Inv{Args: c.args(dir, s), Dir: dir, Env: c.Env}
+		procs := []int{1, 2, 4, 16}[i%4]
+		out, err := simlint.RunReal(realBin, cd, sinv, procs)
+		os.RemoveAll(cd)
+		if err != nil {
+			return batch.Result{Infra: "real binary: " + err.Error()}
+		}
+		n++
+		digests = append(digests, h64(fmt.Sprint("sub", i, strings.ReplaceAll(out.Stdout, dir, "$DIR"))))
+		res.Counters["real_binary_runs"]++
+		res.Counters["real_binary_pattern_subset_runs"]++
+		dirs := map[string]bool{}
+		for _, p := range s.Patterns {
+			dirs[filepath.Join(dir, fmt.Sprintf("p%d", p))] = true
+		}
+		want, got := restrict(ref.Stdout, dirs), restrict(out.Stdout, dirs)
+		if want != got {
+			res.Violation = &batch.Violation{Class: "real-binary:output-depends-on-patterns", Detail: fmt.Sprintf("the REAL binary (GOMAXPROCS=%d) with patterns %v: problems located in the named packages differ from those its ./... run reports for them:\n%s\nstderr: %s", procs, s.Patterns, strings.ReplaceAll(simlint.Diff(simlint.Out{Stdout: want}, simlint.Out{Stdout: got}), dir, "$DIR"), out.Stderr)}
+		}
 	}
 	res.Evals = n
 	res.Digests = digests
@@ -338,6 +379,25 @@ func execute(c Case, info *execInfo) batch.Result {
 		}
 		return simlint.StdBase(batch.Scratch, c.Flags, c.Env)
 	}
+	var preOut simlint.Out
+	var preDigest uint64
+	preOK := false
+	if c.Pre != nil && c.Pre.Patterns != nil {
+		fsp, err := fresh()
+		if err != nil {
+			return batch.Result{Infra: err.Error()}
+		}
+		out, fs2, vr := simlint.RunOne(simCfg(c.Pre), fsp, simlint.Inv{Args: c.args(dir, c.Pre), Dir: dir, Env: c.Env})
+		res.Steps += vr.Steps
+		res.Decisions += vr.Decisions
+		res.Counters["subset_before_reference_runs"]++
+		if cl, d := simlint.Problems(vr); cl != "" {
+			fail(cl, "subset run before the reference (patterns=%v): %s", c.Pre.Patterns, d)
+			return res
+		}
+		preOut, preOK = out, true
+		preDigest = vr.Digest ^ h64(strings.ReplaceAll(out.Stdout, dir, "$DIR")) ^ simlint.DiskDigest(fs2)
+	}
 	// reference: FIFO, one worker, canonical map order, fresh cache, all packages
 	refInv := simlint.Inv{Args: c.args(dir, nil), Dir: dir, Env: c.Env}
 	fs0, err := fresh()
@@ -362,6 +422,17 @@ func execute(c Case, info *execInfo) batch.Result {
 		}
 	}
 	digests := []uint64{rvr.Digest ^ h64(strings.ReplaceAll(ref.Stdout, dir, "$DIR"))}
+	if preOK {
+		digests = append(digests, preDigest)
+		dirs := map[string]bool{}
+		for _, p := range c.Pre.Patterns {
+			dirs[filepath.Join(dir, fmt.Sprintf("p%d", p))] = true
+		}
+		want, got := restrict(ref.Stdout, dirs), restrict(preOut.Stdout, dirs)
+		if want != got {
+			fail("output-depends-on-patterns", "a run naming only %v, made before the ./... run in the same process: problems located in the named packages differ from those the ./... run reports for them:\n%s", c.Pre.Patterns, strings.ReplaceAll(simlint.Diff(simlint.Out{Stdout: want}, simlint.Out{Stdout: got}), dir, "$DIR"))
+		}
+	}
 	disks := make([]*simos.FS, len(c.Scheds))
 	for i := range c.Scheds {
 		s := &c.Scheds[i]
@@ -408,6 +479,9 @@ func execute(c Case, info *execInfo) batch.Result {
 		}
 	}
 	res.Evals = 1 + len(c.Scheds)
+	if preOK {
+		res.Evals++
+	}
 	res.Digests = digests
 	var all uint64
 	for _, d := range digests {
@@ -496,6 +570,21 @@ func (engine) Generate(seed uint64, index int, tier string) json.RawMessage {
 			s.Warm = r.N(i)
 		}
 		c.Scheds = append(c.Scheds, s)
+	}
+	if mode == "" && r.P(300) {
+		// one subset run before the reference (costs a `go list` of its own)
+		pre := Sched{Seed: r.Next(), Strategy: 1 + r.N(4), Procs: procChoices[r.N(len(procChoices))], Warm: -1}
+		n := 1 + r.N(npkg)
+		perm := make([]int, npkg)
+		for j := range perm {
+			perm[j] = j
+		}
+		for j := npkg - 1; j > 0; j-- {
+			k := r.N(j + 1)
+			perm[j], perm[k] = perm[k], perm[j]
+		}
+		pre.Patterns = perm[:n]
+		c.Pre = &pre
 	}
 	b, _ := json.Marshal(c)
 	return b
@@ -685,7 +774,7 @@ func (engine) Describe() batch.Description {
 	}
 	sort.Strings(strs)
 	return batch.Description{
-		Rule: "each case: one seeded module (2-7 packages, thorough 2-12; chain/diamond/fan/two-component/random import graphs; facts flowing through dependencies (deprecation, purity, nilness), directives, configuration files, optional test variants, build tags, GOOS) linted once under the reference conditions (FIFO schedule, 1 worker, canonical map order, fresh cache) and then under 40 (thorough 80) seeded (schedule strategy in {" + strings.Join(strs, ",") + "}, worker count in {1,2,3,4,8,16}, map iteration order, directory order) combinations, a quarter of them with a seeded subset and order of package patterns, a fifth on a cache warmed by an earlier run of the same case; an evaluation is one simulated linter run; distinct = distinct (kernel event digest, output) pairs; non-trivial = the module has at least one problem.",
+		Rule: "each case: one seeded module (2-7 packages, thorough 2-12; chain/diamond/fan/two-component/random import graphs; facts flowing through dependencies (deprecation, purity, nilness), directives, configuration files, optional test variants, build tags, GOOS) linted once under the reference conditions (FIFO schedule, 1 worker, canonical map order, fresh cache) and then under 40 (thorough 80) seeded (schedule strategy in {" + strings.Join(strs, ",") + "}, worker count in {1,2,3,4,8,16}, map iteration order, directory order) combinations, a quarter of them with a seeded subset and order of package patterns (in 30% of the cases one more subset run happens BEFORE the reference run, with a package graph loaded for the subset alone), a fifth on a cache warmed by an earlier run of the same case; an evaluation is one simulated linter run; distinct = distinct (kernel event digest, output) pairs; non-trivial = the module has at least one problem.",
 		Assumptions: []string{
 			"`go list -export` and the compiler are outside the simulator, run once per module state (memoised) and trusted to be deterministic",
 			"map iteration order is controlled in lintcmd, lintcmd/runner, go/ir and unused; inside other analyzers it is the runtime's (a difference it causes is still detected, but replays only statistically)",
